@@ -201,6 +201,10 @@ class CallMixin:
             return z3.BoolVal('tuple' in names)
         if v.ty is EXC:
             return z3.Or([self.exc_is(v.t, n) for n in names if n in self.exc_codes] or [z3.BoolVal(False)])
+        if isinstance(v.ty, TEnum):
+            # enum-encoded singleton classes (ast operator nodes): isinstance(op, ast.Pow) <=> op is the Pow member
+            ms = [n for n in names if n in v.ty.members]
+            return z3.Or([v.t == v.ty.member(n) for n in ms] or [z3.BoolVal(False)])
         if isinstance(v.ty, TObj):
             f = self.UF('isinst_' + v.ty.name, v.ty.sort(), z3.StringSort(), z3.BoolSort())
             return z3.Or([f(v.t, z3.StringVal(n)) for n in names])
@@ -625,6 +629,11 @@ class CallMixin:
             yield st, r
             return
         if m is None:
+            # attrs / NamedTuple-like record: keyword arguments initialise the declared fields
+            for k_, v_ in kwargs.items():
+                self.write_field(st, r, k_, v_)
+            if args:
+                raise Unsupported(f'positional construction of record class {name}')
             yield st, r
             return
         fr = FuncRef(c.module.relpath, f'{c.qualname}.__init__', m, cls=c)
